@@ -72,5 +72,5 @@ func (evp *EventHandlerPool) Clean() {
 	evp.mu.Lock()
 	defer evp.mu.Unlock()
 
-	evp.pool = nil
+	evp.pool = make(map[Event][]EventHandlerFunc)
 }
